@@ -38,6 +38,8 @@ type callRes struct {
 	class string
 	own   bool
 	tag   uint16
+	keep  *go9p.Fcall // the reply, kept by the caller until every call has returned
+	want  string
 }
 
 func classify(rc *go9p.Fcall, err error, want string) (string, bool) {
@@ -113,6 +115,8 @@ func runClntCase(cs clntCase, dotu bool) (line string, results []callRes) {
 			res[i] = callRes{class: c, own: own}
 			if err == nil && rc != nil {
 				res[i].own = strings.HasPrefix(rc.Dir.Name, fmt.Sprintf("own-%d-", 1000+i))
+				res[i].keep = rc
+				res[i].want = string(append([]byte{}, rc.Pkt...))
 			} else if e, ok := err.(*go9p.Error); ok && strings.HasPrefix(e.Err, "scripted:") {
 				res[i].own = strings.HasPrefix(e.Err, fmt.Sprintf("scripted:own-%d-", 1000+i))
 			}
@@ -181,19 +185,31 @@ func runClntCase(cs clntCase, dotu bool) (line string, results []callRes) {
 		}
 	}
 	for _, s := range cut(send, cs.points) {
-		p.conn.mu.Lock()
-		for len(p.conn.segs) > 0 && !p.conn.closed {
-			p.conn.cond.Wait()
+		dl := time.Now().Add(2 * time.Second)
+		for {
+			p.conn.mu.Lock()
+			busy := len(p.conn.segs) > 0 && !p.conn.closed
+			p.conn.mu.Unlock()
+			if !busy || time.Now().After(dl) {
+				break
+			}
+			time.Sleep(20 * time.Microsecond)
 		}
-		p.conn.mu.Unlock()
 		p.conn.push(append([]byte{}, s...))
 	}
 	switch cs.end {
 	case "eof":
-		p.conn.mu.Lock()
-		for len(p.conn.segs) > 0 && !p.conn.closed {
-			p.conn.cond.Wait()
+		dl := time.Now().Add(2 * time.Second)
+		for {
+			p.conn.mu.Lock()
+			busy := len(p.conn.segs) > 0 && !p.conn.closed
+			p.conn.mu.Unlock()
+			if !busy || time.Now().After(dl) {
+				break
+			}
+			time.Sleep(20 * time.Microsecond)
 		}
+		p.conn.mu.Lock()
 		p.conn.eof = true
 		p.conn.cond.Broadcast()
 		p.conn.mu.Unlock()
@@ -232,6 +248,16 @@ func runClntCase(cs clntCase, dotu bool) (line string, results []callRes) {
 			hang = true
 		}
 	}
+	// replies kept by their callers must not have been disturbed by bytes that arrived later
+	disturbed := false
+	for i := range res {
+		if res[i].keep != nil && string(res[i].keep.Pkt) != res[i].want {
+			disturbed = true
+		}
+	}
+	// every tag is back in the pool or with a cached Req
+	pool, cached := go9p.VerifClntTags(p.clnt)
+	tagsOK := pool+cached == 65535
 	if cs.end == "none" {
 		p.clnt.Unmount()
 	}
@@ -244,7 +270,8 @@ func runClntCase(cs clntCase, dotu bool) (line string, results []callRes) {
 	for _, r := range res {
 		fmt.Fprintf(&sb, " %s:%d", r.class, b2i(r.own))
 	}
-	fmt.Fprintf(&sb, " ; LATE %s ; DISTINCT %d ; HANG %d", late, b2i(distinct && (cs.hold || len(tags) == cs.n)), b2i(hang))
+	fmt.Fprintf(&sb, " ; LATE %s ; DISTINCT %d ; HANG %d ; TAGSBACK %d", late, b2i(distinct && (cs.hold || len(tags) == cs.n)), b2i(hang), b2i(tagsOK || hang))
+	fmt.Fprintf(&sb, " ; DISTURBED %d", b2i(disturbed))
 	return sb.String(), res
 }
 
@@ -332,6 +359,11 @@ func modeClnt(tier string, args []string) {
 				stat("clnt.fail_cases", 1)
 			}
 		}
+	}
+	// interleaved issue / answer: new calls are issued while older ones are still pending
+	for r := 0; r < rounds*6; r++ {
+		emit("%s", runInterleaved(4+rng.Intn(6), r%2 == 0))
+		stat("clnt.interleaved_cases", 1)
 	}
 	// callers caught between linking their request and handing it to the send goroutine
 	for r := 0; r < rounds*4; r++ {
@@ -421,4 +453,77 @@ func sortInts(a []int) {
 			a[j-1], a[j] = a[j], a[j-1]
 		}
 	}
+}
+
+// runInterleaved: a random script of "issue a call" / "answer a pending call (any of them)".
+func runInterleaved(n int, dotu bool) string {
+	p := newClntPeer(8192, dotu)
+	type pend struct {
+		idx int
+		req []byte
+	}
+	res := make([]callRes, n)
+	done := make([]chan struct{}, n)
+	issued, answered := 0, 0
+	var pending []pend
+	seenFrames := 0
+	var script []string
+	issue := func() {
+		i := issued
+		issued++
+		done[i] = make(chan struct{})
+		go func() {
+			defer close(done[i])
+			tc := p.clnt.NewFcall()
+			_ = go9p.PackTstat(tc, uint32(1000+i))
+			rc, err := p.clnt.Rpc(tc)
+			c, _ := classify(rc, err, "")
+			res[i] = callRes{class: c}
+			if err == nil && rc != nil {
+				res[i].own = strings.HasPrefix(rc.Dir.Name, fmt.Sprintf("own-%d-", 1000+i))
+			}
+		}()
+		deadline := time.Now().Add(2 * time.Second)
+		for len(p.requests()) <= seenFrames && time.Now().Before(deadline) {
+			time.Sleep(10 * time.Microsecond)
+		}
+		fr := p.requests()
+		if len(fr) > seenFrames {
+			pending = append(pending, pend{i, fr[seenFrames]})
+			seenFrames++
+		}
+		script = append(script, fmt.Sprintf("I%d", i))
+	}
+	hang := false
+	answer := func() {
+		k := rng.Intn(len(pending))
+		pd := pending[k]
+		pending = append(pending[:k], pending[k+1:]...)
+		p.conn.push(replyFor(pd.req, 'M', dotu))
+		select {
+		case <-done[pd.idx]:
+		case <-time.After(3 * time.Second):
+			hang = true
+		}
+		answered++
+		script = append(script, fmt.Sprintf("A%d", pd.idx))
+	}
+	for answered < n && !hang {
+		if issued < n && (len(pending) == 0 || rng.Intn(2) == 0) {
+			issue()
+		} else if len(pending) > 0 {
+			answer()
+		} else {
+			break
+		}
+	}
+	pool, cached := go9p.VerifClntTags(p.clnt)
+	p.clnt.Unmount()
+	var sb strings.Builder
+	fmt.Fprintf(&sb, "CI %d %s ; RES", n, strings.Join(script, ","))
+	for _, r := range res {
+		fmt.Fprintf(&sb, " %s:%d", r.class, b2i(r.own))
+	}
+	fmt.Fprintf(&sb, " ; HANG %d ; TAGSBACK %d", b2i(hang), b2i(pool+cached == 65535 || hang))
+	return sb.String()
 }
